@@ -1,0 +1,17 @@
+// +build verif
+
+// Hooks for the verification harness (build tag "verif"). Add-only.
+
+package agent
+
+import (
+	"net"
+
+	"github.com/honeytrap/honeytrap/listener"
+)
+
+// VerifServe runs the real agent session loop on the given (already
+// established, unencrypted) connection.
+func VerifServe(l listener.Listener, c net.Conn) {
+	l.(*agentListener).serv(Conn2(c))
+}
